@@ -1,0 +1,176 @@
+// Copyright 2025 SCION Association
+//
+// Licensed under the Apache License, Version 2.0 (the "License");
+// you may not use this file except in compliance with the License.
+// You may obtain a copy of the License at
+//
+//   http://www.apache.org/licenses/LICENSE-2.0
+//
+// Unless required by applicable law or agreed to in writing, software
+// distributed under the License is distributed on an "AS IS" BASIS,
+// WITHOUT WARRANTIES OR CONDITIONS OF ANY KIND, either express or implied.
+// See the License for the specific language governing permissions and
+// limitations under the License.
+
+//go:build verif
+
+package router
+
+import (
+	"net"
+	"unsafe"
+)
+
+// This file exposes, for deterministic simulation only, a configured data plane's packet
+// processors so that they can be called synchronously (no goroutines, no sockets). It is modelled
+// on export_test.go.
+
+// VerifDisposition is the outcome of processing one packet.
+type VerifDisposition int
+
+const (
+	// VerifDiscard: the packet was dropped.
+	VerifDiscard VerifDisposition = iota
+	// VerifForward: the packet must be sent over EgressLink.
+	VerifForward
+	// VerifDone: the packet was consumed (BFD).
+	VerifDone
+)
+
+// VerifResult describes what the router did with a packet.
+type VerifResult struct {
+	Disposition VerifDisposition
+	// SlowPath is true if the fast path handed the packet to the slow path; Forward then means the
+	// slow path produced a reply (SCMP) that goes back over the ingress link.
+	SlowPath bool
+	// SlowPathErr is the error of the slow path processor, if any (packet dropped).
+	SlowPathErr error
+	// SPType, SPCode, SPPointer are the slow-path request of the fast path.
+	SPType    int
+	SPCode    uint8
+	SPPointer uint16
+	// Egress is the egress interface ID chosen by the fast path (0: internal link).
+	Egress uint16
+	// EgressLink is the link over which the resulting packet is sent.
+	EgressLink Link
+	// Dst is the underlay destination attached to the packet (internal link only).
+	Dst *net.UDPAddr
+	// TrafficType as determined by the fast path.
+	TrafficType int
+}
+
+// VerifSetConnOpener installs the connection opener of the named underlay provider.
+func (c *Connector) VerifSetConnOpener(underlay string, opener any) {
+	c.DataPlane.underlays[underlay].SetConnOpener(opener)
+}
+
+// VerifPrepare does what Run does before starting goroutines: it sizes and fills the packet pool
+// and marks the data plane as running. No goroutine is started and no link is started.
+func (c *Connector) VerifPrepare() {
+	d := &c.DataPlane
+	d.mtx.Lock()
+	defer d.mtx.Unlock()
+	numConnections := 0
+	for _, u := range d.underlays {
+		numConnections += u.NumConnections()
+	}
+	processorQueueSize := max(
+		numConnections*d.RunConfig.BatchSize/d.RunConfig.NumProcessors,
+		d.RunConfig.BatchSize,
+	)
+	d.initPacketPool(processorQueueSize)
+	d.setRunning()
+}
+
+// VerifLink returns the link associated with the interface ID (0: the internal link).
+func (c *Connector) VerifLink(ifID uint16) Link {
+	return c.DataPlane.interfaces[ifID]
+}
+
+// VerifLinkType returns the configured link type of the interface.
+func (c *Connector) VerifLinkType(ifID uint16) int {
+	return int(c.DataPlane.linkTypes[ifID])
+}
+
+// VerifNewPacket takes a packet from the real pool and fills it as the receiver of the given link
+// would: raw bytes, ingress link and, for unconnected links, the source address.
+func (c *Connector) VerifNewPacket(raw []byte, link Link, src *net.UDPAddr) *Packet {
+	p := c.DataPlane.packetPool.Get()
+	n := copy(p.RawPacket, raw)
+	p.RawPacket = p.RawPacket[:n]
+	p.Link = link
+	if src != nil {
+		p.RemoteAddr = unsafe.Pointer(src)
+	}
+	return p
+}
+
+// VerifRelease returns a packet to the pool.
+func (c *Connector) VerifRelease(p *Packet) {
+	c.DataPlane.packetPool.Put(p)
+}
+
+// VerifPoolLen returns the number of packets currently in the pool.
+func (c *Connector) VerifPoolLen() int {
+	return len(c.DataPlane.packetPool.pool)
+}
+
+// VerifProcessor is a fast-path processor paired with a slow-path processor.
+type VerifProcessor struct {
+	d    *dataPlane
+	fast *scionPacketProcessor
+	slow *slowPathPacketProcessor
+}
+
+// VerifNewProcessor creates the processors exactly as the processing goroutines do.
+func (c *Connector) VerifNewProcessor() *VerifProcessor {
+	d := &c.DataPlane
+	return &VerifProcessor{d: d, fast: newPacketProcessor(d), slow: newSlowPathProcessor(d)}
+}
+
+// Process runs the packet through the fast path and, if requested, the slow path, and reports the
+// outcome the way runProcessor and runSlowPathProcessor act on it. The resulting bytes are in
+// p.RawPacket. The caller keeps ownership of p in every case.
+func (v *VerifProcessor) Process(p *Packet) VerifResult {
+	var res VerifResult
+	disp := v.fast.processPkt(p)
+	res.Egress = p.egress
+	res.TrafficType = int(p.trafficType)
+	switch disp {
+	case pForward:
+		fwLink := v.d.interfaces[p.egress]
+		if fwLink == nil {
+			res.Disposition = VerifDiscard
+			return res
+		}
+		res.Disposition = VerifForward
+		res.EgressLink = fwLink
+		if fwLink.Scope() == Internal {
+			res.Dst = (*net.UDPAddr)(p.RemoteAddr)
+		}
+	case pSlowPath:
+		res.SlowPath = true
+		res.SPType = int(p.slowPathRequest.spType)
+		res.SPCode = uint8(p.slowPathRequest.code)
+		res.SPPointer = p.slowPathRequest.pointer
+		if err := v.slow.processPacket(p); err != nil {
+			res.SlowPathErr = err
+			res.Disposition = VerifDiscard
+			return res
+		}
+		if p.Link == nil {
+			res.Disposition = VerifDiscard
+			return res
+		}
+		res.Disposition = VerifForward
+		res.EgressLink = p.Link
+		if p.Link.Scope() == Internal {
+			res.Dst = (*net.UDPAddr)(p.RemoteAddr)
+		}
+	case pDone:
+		res.Disposition = VerifDone
+	default:
+		res.Disposition = VerifDiscard
+	}
+	return res
+}
